@@ -46,8 +46,9 @@ std::vector<ET::AlphabetType> g_alphas;          // index 0 unused (= library de
 std::vector<mdl::Alphabet> g_alpha_model;        // what this run registered in each alphabet
 uint64_t g_origin_ctr = 0;
 
-struct Decided { std::string what; long sel; long via; TA a, b; int alpha; int result; };
+struct Decided { std::string what; long sel; long via; TA a, b; int alpha; int result; TA res; };
 std::vector<Decided> g_decided;
+void record_result(const std::string& what, const TA& ma, const TA* mb, int alpha, const TA& res);
 
 inline long mod(long v, size_t n) { long m = long(n); long r = v % m; return r < 0 ? r + m : r; }
 
@@ -503,8 +504,9 @@ void lang_oracle(const std::string& oracle, const std::string& site, const TA& g
 
 void op_union(const Step& s) {
 	ETH& a = H(s, 0); ETH& b = H(s, 1); if (!same_alpha(a, b)) throw Skip();
-	long mode = mod(s.arg(2), 3); StateMap m1, m2;
+	long mode = mod(s.arg(2), 4); StateMap m1, m2;
 	api_begin();
+	if (mode == 3) { ET first = ET::Union(*a.aut, *b.aut, &m1, &m2); mode = 1; }     // maps pre-filled by an earlier identical call
 	ET r = mode == 0 ? ET::Union(*a.aut, *b.aut) : (mode == 1 ? ET::Union(*a.aut, *b.aut, &m1, &m2) : ET::Union(*a.aut, *b.aut, &m1, nullptr));
 	TA ma = a.model, mb = b.model; int al = a.alpha;
 	api_end();
@@ -526,7 +528,7 @@ void op_union(const Step& s) {
 		check_operands_unchanged(s, a, &b, "C02");
 		note_ta_case(ma, &mb, 2);
 	}
-	add_result(s, std::move(r), al);
+	{ ETH& nr = add_result(s, std::move(r), al); record_result("union", ma, &mb, al, nr.model); }
 	after_mutation(s, "et_union");
 }
 
@@ -601,7 +603,7 @@ void do_isect(const Step& s, bool bu) {
 		check_operands_unchanged(s, a, &b, "C02");
 		note_ta_case(ma, &mb, bu ? 5 : 4);
 	}
-	add_result(s, std::move(r), al);
+	{ ETH& nr = add_result(s, std::move(r), al); if (mode != 2) record_result(bu ? "isect_bu" : "isect", ma, &mb, al, nr.model); }
 	after_mutation(s, site);
 }
 void op_isect(const Step& s) { do_isect(s, false); }
@@ -622,7 +624,7 @@ void op_unreach(const Step& s) {
 		check_operands_unchanged(s, a, nullptr, "C03");
 		note_ta_case(ma, nullptr, 6);
 	}
-	add_result(s, std::move(r), al, a.origin);
+	{ uint64_t og = a.origin; ETH& nr = add_result(s, std::move(r), al, og); record_result("unreach", ma, nullptr, al, nr.model); }
 	after_mutation(s, "et_unreach");
 }
 
@@ -643,7 +645,7 @@ void op_useless(const Step& s) {
 		check_operands_unchanged(s, a, nullptr, "C03");
 		note_ta_case(ma, nullptr, 7);
 	}
-	add_result(s, std::move(r), al, a.origin);
+	{ uint64_t og = a.origin; ETH& nr = add_result(s, std::move(r), al, og); record_result("useless", ma, nullptr, al, nr.model); }
 	after_mutation(s, "et_useless");
 }
 
@@ -651,6 +653,14 @@ void record_decided(const std::string& what, long sel, long via, const ETH& a, c
 	if (!armed("C11") && !armed("C19")) return;
 	if (g_decided.size() >= 64) return;
 	Decided d; d.what = what; d.sel = sel; d.via = via; d.a = a.model; if (b) d.b = b->model; d.alpha = a.alpha; d.result = result;
+	g_decided.push_back(d);
+}
+
+// automaton-valued operations: the abstract result (its language) must be the same whenever the call is repeated on equal operands
+void record_result(const std::string& what, const TA& ma, const TA* mb, int alpha, const TA& res) {
+	if (!armed("C11") || g_decided.size() >= 64) return;
+	if (ma.states().size() > 6 || (mb && mb->states().size() > 6)) return;
+	Decided d; d.what = what; d.sel = 0; d.via = 0; d.a = ma; if (mb) d.b = *mb; d.alpha = alpha; d.result = -1; d.res = res;
 	g_decided.push_back(d);
 }
 
@@ -695,7 +705,7 @@ void op_reduce(const Step& s) {
 		check_operands_unchanged(s, a, nullptr, "C05");
 		note_ta_case(ma, nullptr, 9);
 	}
-	add_result(s, std::move(r), al);
+	{ ETH& nr = add_result(s, std::move(r), al); record_result("reduce", ma, nullptr, al, nr.model); }
 	after_mutation(s, "et_reduce");
 }
 
@@ -1056,6 +1066,18 @@ void op_repeat(const Step& s) {
 	const Decided d = g_decided[size_t(mod(s.arg(0), g_decided.size()))];
 	api_begin();
 	ET a = build_from_model(d.a, d.alpha); int v;
+	if (d.result < 0) {
+		// automaton-valued: repeat, read back, compare the languages
+		ET b = build_from_model(d.b, d.alpha);
+		ET r = d.what == "union" ? ET::Union(a, b) : d.what == "isect" ? ET::Intersection(a, b) : d.what == "isect_bu" ? ET::IntersectionBU(a, b) : d.what == "unreach" ? a.RemoveUnreachableStates() : d.what == "useless" ? a.RemoveUselessStates() : a.Reduce();
+		api_end();
+		if (d.alpha > 0) r.SetAlphabet(alpha_obj(d.alpha));
+		TA got = read_back(r); count(c_repeat_checks); count(c_oracle_evals);
+		int e = mdl::equiv(got, d.res);
+		if (e == 0) violation(g_profile + ".result-depends-only-on-operands", "et_repeat:" + d.what, "the same operation on equal operands returned an automaton with another language than earlier in the process\n  a: " + mdl::to_lit(d.a) + "\n  b: " + mdl::to_lit(d.b) + "\n  earlier: " + mdl::to_lit(d.res) + "\n  now    : " + mdl::to_lit(got));
+		else if (e > 0) note_case(mix64(hash_str(d.what), mix64(d.a.hash(), d.b.hash())));
+		return;
+	}
 	if (d.what == "is_empty") v = a.IsLangEmpty();
 	else { ET b = build_from_model(d.b, d.alpha); v = run_incl(a, b, d.sel, d.via); }
 	count(c_repeat_checks); count(c_oracle_evals);
